@@ -54,7 +54,9 @@ class SingleMemoryStorageSchedule(CheckpointSchedule):
             if self._r == 0:
                 # Reverse
                 self._r = self._max_n
-                yield Reverse(self._max_n, 0, True)
+                # Keep the adjoint dependency data: it is the only copy, and
+                # further adjoint calculations are permitted
+                yield Reverse(self._max_n, 0, False)
             elif self._r == self._max_n:
                 # Reset for new reverse
 
